@@ -66,7 +66,7 @@ CHECKS = {
          "property-based fault injection: generated histories x enumerated crash points x enumerated page-subset families, recovery oracle from a reference model (proptest)", "DESIGN.md §4 C05, §3 E2"),
  "C12": ("E2-crash", "fault_enumeration",
          "Generated histories with frequent compact(): placement, lengths, byte contents (model) and both file lengths are compared across every compact(); every hole-punch event is checked against the in-memory metadata and against the durable regions-file image reconstructed by the crash simulator at that instant (disjoint from every referenced region's valid pages, inside a free extent or an unused reserve); every storage event from the first compact() on is a crash point under the C05 image families and recovery oracle.",
-         "Sequential histories only: interleavings of compact() with concurrent writers are NOT explored by this check (that part of the property is not claimed). Crash model as for C05.",
+         "Crash model as for C05. Concurrent part (3 of 5 cases): compact() in one program of the C10 engine while the other programs write/relocate/flush, at lock-request/yield-point granularity; known finding KF-C12-1 (hole punch between a concurrent writer's data write and its length update) is excluded by construction (the region is no longer content-checked once a compaction overlapped a write that extended it past its last valid page) and counted.",
          "property-based fault injection + invariant monitor over recorded storage events (proptest)", "DESIGN.md §4 C12, §3 E2"),
  "C15": ("E5-lazy", "exploration",
          "Property test with a formula oracle: every lazy vector kind (one/two/three-source transforms incl. index-dependent functions, the shipped arithmetic transforms, lazy-over-lazy and sources of another index type; windowed delta operators Sub/Avg/Change/Rate over generated monotone window starts; sparse aggregation over generated first-index mappings) is built over stored sources of generated formats and lengths, and every read path (whole, ranges incl. beyond the end and to=usize::MAX, into-buffer, fold/try_fold with early exit, for_each, signed ranges, point reads, sorted reads with duplicates, cursors, boxed clones) is compared with the closed formula over the model sources, right after construction and again after the sources grew.",
@@ -76,6 +76,14 @@ CHECKS = {
          "Schedule exploration with a deterministic scheduler: one writer program (append batches around the page thresholds, write()/flush()) and 1-2 reader programs over read-only clones run as real threads of which exactly one executes at a time; every instrumented lock request (hook H3) and every yield point around the stored-length publication (H4) is a scheduling point and the next program comes from a generated choice vector (uniform / sticky / directed preemption right before the publication). Oracle: every value read at index i is the value pushed at i, every returned sequence covers the indices below the length the reader had observed, lengths never decrease, no panic, no model deadlock, final contents complete.",
          "Interleavings at lock-request/yield-point granularity under sequential consistency only (weak-memory reorderings of the length's Release/Acquire pair are out of reach); locks modelled as writer-preferring FIFO. Known finding KF-C09-1 (compressed write() re-encoding the partial last page in place before the index update) is excluded by construction (such batches are shortened) and counted.",
          "property-based schedule exploration: generated thread programs x generated schedules under a deterministic scheduler, prefix/value oracle (proptest)", "DESIGN.md §4 C09, §3 E6"),
+ "C11": ("E6-sched", "exploration",
+         "Schedule exploration with the deterministic scheduler: 2-3 programs of 1-4 public-API operations each (region writes that fit / fill / overflow the reserve / grow the file, truncation, region and database flush, compact inline and as a joined background program, create/remove/rename, short-lived Readers, vector push+write/flush on raw, Pco and LZ4 vectors, reads through read-only clones), prologues that leave holes, a nearly full file, or a page-index region about to grow. A state in which no program is enabled while some are unfinished is a deadlock under writer-preferring FIFO read-write locks and is reported with each program's held and requested locks.",
+         "Sampled schedules of short programs; scheduling points are lock requests and yield points. parking_lot Mutexes and the Condvar of bg_sleep are not modelled (leaf locks / skipped wait); run_bg + sync_bg_tasks are represented by an extra program and a scheduler-aware join. Liveness beyond 'this finite run terminates' is not addressed.",
+         "property-based schedule exploration with a lock-model deadlock oracle (proptest + deterministic scheduler)", "DESIGN.md §4 C11, §3 E6"),
+ "C10": ("E6-sched", "exploration",
+         "Schedule exploration with the deterministic scheduler: 2-3 programs that own distinct regions (append small / exactly to the reserve / one byte over it / several doublings, positional write, truncate, truncate_write, rename, create, remove, Region::flush, Database::flush, compact) with holes and a nearly full file in the prologue. After every own operation a program compares all of its regions with a private byte model (isolation); Readers (also on other programs' regions) are held across up to 5 operations of the other programs and every byte below the snapshot length must occur at that offset in a version the region had since the Reader's creation; at the quiescent end the C02 extent invariants hold and every region equals its owner's final model.",
+         "Interleavings at lock-request/yield-point granularity under sequential consistency. Known findings excluded by construction and counted: KF-C10-1 (a Reader whose region was relocated while it was held: byte clause skipped for exactly those Readers) and KF-C12-1 (compact() overlapping a write that extends a region beyond its last valid page: that region is no longer content-checked).",
+         "property-based schedule exploration with per-program reference models and a version-history oracle for held Readers (proptest + deterministic scheduler)", "DESIGN.md §4 C10, §3 E6"),
 }
 WIP = "not claimed: the generated-input check designed in DESIGN.md §4 was not built within the time available (the technique applies; nothing is asserted about this property)"
 
@@ -105,7 +113,7 @@ ENGINES = [
  {"name": "E8-proc", "path": "harness/src/props/c18.rs", "serves_properties": ["C18"], "kind_free_text": "holder/open-attempt histories; second opens from threads and from re-exec'd child processes (vcheck --child-open)"},
  {"name": "E2-crash", "path": "harness/src/crash", "serves_properties": ["C05", "C12"], "kind_free_text": "storage-event recorder (hook H1) + page-versioned durable-image simulator + crash-image enumeration and recovery oracle on top of E1"},
  {"name": "E5-lazy", "path": "harness/src/props/c15.rs", "serves_properties": ["C15"], "kind_free_text": "lazy vector constructors over stored sources, closed-formula oracles, generic read-path matrix"},
- {"name": "E6-sched", "path": "harness/src/sched", "serves_properties": ["C09", "C10", "C11"], "kind_free_text": "deterministic scheduler: real threads, one running at a time, scheduling points at instrumented lock requests (H3) and yield points (H4), writer-preferring FIFO lock model, deadlock = no enabled program"},
+ {"name": "E6-sched", "path": "harness/src/sched", "serves_properties": ["C09", "C10", "C11", "C12"], "kind_free_text": "deterministic scheduler: real threads, one running at a time, scheduling points at instrumented lock requests (H3) and yield points (H4), writer-preferring FIFO lock model, deadlock = no enabled program"},
  {"name": "E1-rawmodel", "path": "harness/src/rawmodel", "serves_properties": ["C01", "C02", "C13", "C05", "C12", "C10"], "kind_free_text": "rawdb op language + byte-vector reference model + extent invariants, driven by proptest"},
 ]
 manifest = {
